@@ -7,6 +7,6 @@ for f in $wt/NEUTRAL/n*.diff; do
   n=$(basename $f .diff)
   kind=$(jq -r --arg f "$n.diff" '.[] | select(.file==$f) | .kind' $wt/NEUTRAL/index.json 2>/dev/null | tr -c 'a-zA-Z0-9\n' '-' | tr 'A-Z' 'a-z' | cut -c1-40 | sed 's/-*$//')
   out=selftest/neutral/agent-$tag-$n-$kind.patch
-  { echo "# property: all"; echo "# origin: independent sub-agent asked for behaviour-preserving refactorings (group $tag)"; jq -r --arg f "$n.diff" '.[] | select(.file==$f) | "# summary: " + (.summary|gsub("\n";" "))' $wt/NEUTRAL/index.json 2>/dev/null; cat $f; } > $out
+  { echo "# property: all"; echo "# origin: independent sub-agent asked for behaviour-preserving refactorings (group $tag)"; jq -r --arg f "$n.diff" '.[] | select(.file==$f) | "# summary: " + (.summary|gsub("\n";" "))' $wt/NEUTRAL/index.json 2>/dev/null; cat $f | python3 -c "import sys,re; t=sys.stdin.read(); parts=re.split(r'(?m)^(?=diff --git )',t); sys.stdout.write(''.join(x for x in parts if not re.match(r'diff --git a/(_examples/|go\.(mod|sum) )',x)))"; } > $out
 done
 SELFTEST_JOBS=${SELFTEST_JOBS:-3} selftest/run.py agent-$tag- 2>&1 | tail -8
